@@ -11,7 +11,7 @@
    extended by the parent path. *)
 From Coq Require Import List ZArith String Bool PArith.
 From TP Require Import Json PyPrim Machine Api Mutate SpecSet.
-From TP.proofs Require Import RefineBase MutateProofs BelowLemmas RoundTrip AssignPosition.
+From TP.proofs Require Import RefineBase MutateProofs BelowLemmas RoundTrip AssignPosition PopTaxonomy.
 Import ListNotations.
 
 Theorem C10_unchanged : forall B H depth src doc p must tr r doc' es,
@@ -59,3 +59,12 @@ Theorem C10_pop_from_a_match_at_position :
                       remove v y = Some y' /\ doc' = put_at doc (steps_of (abs m0) ++ pp) y'.
 Proof. exact pop_match_position_from. Qed.
 Print Assumptions C10_pop_from_a_match_at_position.
+
+(* on a path of keys and indices the removal succeeds whenever the path selects a node; what can be raised otherwise is
+   MatchNotFoundError (must_match), PopError for the root path, or the budget exception *)
+Theorem C10_pop_fails_only_so : forall B H depth d0 doc (p : list (vertex (@hpred json))) must tr e doc' es,
+  kipath p = true -> uniq doc -> NoDup (labels doc) ->
+  pop_match B H depth (SrcDoc d0) doc p must tr = (Exn e, doc', es) ->
+  (p = [] /\ e = EPop) \/ (must = true /\ e = EMatchNotFound) \/ budget_exn e = true.
+Proof. exact pop_match_exceptions. Qed.
+Print Assumptions C10_pop_fails_only_so.
